@@ -127,6 +127,13 @@ type Bridge struct {
 	open      atomic.Int64
 }
 
+// SetFault installs the fault injector while requests may already be in flight.
+func (b *Bridge) SetFault(f func(r *SeenReq) error) {
+	b.mu.Lock()
+	b.Fault = f
+	b.mu.Unlock()
+}
+
 // OpenBodies is the number of response bodies handed to the client and not yet closed.
 func (b *Bridge) OpenBodies() int { return int(b.open.Load()) }
 
@@ -251,8 +258,11 @@ func (b *Bridge) Handle(ctx context.Context, _ *http.Client, req *http.Request) 
 			}
 		}
 	}
-	if b.Fault != nil {
-		if err := b.Fault(sr); err != nil {
+	b.mu.Lock()
+	fault := b.Fault
+	b.mu.Unlock()
+	if fault != nil {
+		if err := fault(sr); err != nil {
 			b.mu.Lock()
 			b.Seen = append(b.Seen, sr)
 			b.mu.Unlock()
